@@ -126,7 +126,7 @@ const FINDING_RECORDED_ERROR: &str = "D7b-json-recorded-error";
 const PRELUDE: &str = "\\countdef\\f=9 \\toksdef\\g=9 \\mathchardef\\i=1 \\chardef\\hh=72 \\newInt\\n \\newIntArray\\arr 3 ";
 
 /// Prints every target. Each item is safe whether or not the name is defined.
-const OBSERVE: &str = ";\\a;\\b;\\c\\hh;\\d\\zz{Z}\\zz;\\e;\\the\\f;\\the\\g;\\h;\\the\\i;\\m12.;\\newname;\\é;\\ab;\\abc;\\firstseeninq;\\me;\\gobble x;\\mp ab;\\mn123456789;\\mh x;\\md xy1.2;\\the\\count0 ;\\the\\count32767 ;\\the\\dimen0 ;\\the\\dimen32767 ;\\the\\skip0 ;\\the\\skip32767 ;\\the\\toks0 ;\\the\\toks255 ;\\the\\catcode0 ;\\the\\catcode127 ;\\the\\catcode128 ;\\the\\catcode1114110 ;\\the\\catcode1114111 ;\\the\\mathcode0 ;\\the\\mathcode127 ;\\the\\mathcode128 ;\\the\\mathcode1114110 ;\\the\\mathcode1114111 ;\\ifeof 0 c\\else o\\fi;\\ifeof 15 c\\else o\\fi;\\rz;\\the\\arr 0 ;\\the\\arr 2 ;\\the\\count32766 ;\\the\\toks254 ;\\the\\catcode129 ;\\the\\count100 ;\\the\\count101 ;\\the\\count102 ;\\the\\count103 ;\\the\\count104 ;\\the\\count105 ;\\the\\count106 ;\\the\\count107 ;\\the\\count108 ;\\the\\count109 ;\\the\\count110 ;\\the\\count111 ;\\the\\count112 ;\\the\\count113 ;\\the\\count114 ;\\the\\count115 ;\\the\\dimen2 ;\\the\\dimen3 ;\\the\\skip2 ;\\the\\skip3 ;\\€;\\😀;\\the\\toks2 ;√;\\ifeof 5 c\\else o\\fi;\\ifeof 6 c\\else o\\fi;\\ifeof 7 c\\else o\\fi;\\mq x;\\the\\n;\\the\\arr 1 ;\\r;\\ifeof 3 c\\else o\\fi;\\the\\count1 ;\\the\\dimen1 ;\\the\\skip1 ;\\the\\toks1 ;\\the\\count5 ;\\the\\toks6 ;\\the\\catcode`\\| ;\\the\\catcode`\\é ;\\the\\mathcode`\\k ;\\the\\mathcode`\\é ;\\the\\endlinechar ;\\the\\globaldefs ;\\the\\year ;\\probefont;~;|;";
+const OBSERVE: &str = ";\\a;\\b;\\c\\hh;\\d\\zz{Z}\\zz;\\e;\\the\\f;\\the\\g;\\h;\\the\\i;\\m12.;\\newname;\\é;\\ab;\\abc;\\firstseeninq;\\me;\\gobble x;\\mp ab;\\mn123456789;\\mh x;\\md xy1.2;\\the\\count0 ;\\the\\count32767 ;\\the\\dimen0 ;\\the\\dimen32767 ;\\the\\skip0 ;\\the\\skip32767 ;\\the\\toks0 ;\\the\\toks255 ;\\the\\catcode0 ;\\the\\catcode127 ;\\the\\catcode128 ;\\the\\catcode1114110 ;\\the\\catcode1114111 ;\\the\\mathcode0 ;\\the\\mathcode127 ;\\the\\mathcode128 ;\\the\\mathcode1114110 ;\\the\\mathcode1114111 ;\\ifeof 0 c\\else o\\fi;\\ifeof 15 c\\else o\\fi;\\rz;\\the\\arr 0 ;\\the\\arr 2 ;\\the\\count32766 ;\\the\\toks254 ;\\the\\catcode129 ;\\the\\count100 ;\\the\\count101 ;\\the\\count102 ;\\the\\count103 ;\\the\\count104 ;\\the\\count105 ;\\the\\count106 ;\\the\\count107 ;\\the\\count108 ;\\the\\count109 ;\\the\\count110 ;\\the\\count111 ;\\the\\count112 ;\\the\\count113 ;\\the\\count114 ;\\the\\count115 ;\\the\\dimen2 ;\\the\\dimen3 ;\\the\\skip2 ;\\the\\skip3 ;\\€;\\😀;\\the\\toks2 ;√;\\ifeof 5 c\\else o\\fi;\\ifeof 6 c\\else o\\fi;\\ifeof 7 c\\else o\\fi;\\mq x;\\the\\n;\\the\\arr 1 ;\\r;\\ifeof 3 c\\else o\\fi;\\the\\count1 ;\\the\\dimen1 ;\\the\\skip1 ;\\the\\toks1 ;\\the\\count5 ;\\the\\toks6 ;\\the\\catcode`\\| ;\\the\\catcode`\\é ;\\the\\mathcode`\\k ;\\the\\mathcode`\\é ;\\the\\endlinechar ;\\the\\globaldefs ;\\the\\year ;\\the\\month ;\\the\\tracingmacros ;\\the\\dumpFormat ;\\the\\dumpValidate ;\\probefont;~;|;";
 
 /// two plain lines first: a restored lexer that forgets it is past its first line merges them
 const FILE_F: &str = "r1\nr2\n{r3\nr4}\nr5\n";
@@ -657,6 +657,36 @@ fn stream_case(digits: &[u64]) -> Option<Case> {
     Some(Case { family: "open-read-streams", p: seq.iter().map(|s| s.to_string()).collect(), q: vec![tail], first_boundary: 1, json_boundaries: vec![], files: STREAM_FILES, sel: json!({"digits": digits}), eol: "\n", final_eol: true, bare: false })
 }
 
+// ---------------------------------------------------------------- integer parameters at values outside their effective range
+
+/// every integer parameter the stdlib offers (plus an allocated \newInt variable)
+const INT_PARAMS: [&str; 9] = ["\\endlinechar", "\\globaldefs", "\\tracingmacros", "\\year", "\\month", "\\dumpFormat", "\\dumpValidate", "\\n", "\\count1"];
+/// both sides of every range in which some parameter has an effect (-1/0, ASCII, one byte, char::MAX, i32)
+const INT_VALUES: [i64; 13] = [-7, -2, -1, 0, 127, 128, 255, 256, 300, 1114111, 1114112, 2147483647, -2147483647];
+
+/// digits = [parameter, value, form]; form 0: plain assignment, 1: inside an open group (the outer value is saved),
+/// 2: \global inside an open group
+fn int_param_case(d: &[u64]) -> Case {
+    let (p, v, form) = (INT_PARAMS[d[0] as usize], INT_VALUES[d[1] as usize], d[2]);
+    let text = match form {
+        0 => format!("{p}={v} "),
+        1 => format!("{{{p}={v} "),
+        _ => format!("{{\\global{p}={v} "),
+    };
+    Case {
+        family: "int-parameter-values",
+        p: vec![PRELUDE.to_string(), text],
+        q: observer(0, if form == 0 { 0 } else { 1 }),
+        first_boundary: 2,
+        json_boundaries: vec![],
+        files: &[("f.tex", FILE_F)],
+        sel: json!({"int_param": d}),
+        eol: "\n",
+        final_eol: true,
+        bare: false,
+    }
+}
+
 // ---------------------------------------------------------------- the \dump primitive (job.rs: the stdlib's own route to a format file)
 
 fn builtins_with_dump() -> std::collections::HashMap<&'static str, vtex::texlang::command::BuiltIn<vtex::HState>> {
@@ -777,6 +807,11 @@ fn main() {
             stream_case(&digits)
         } else {
             let alphabet: Vec<usize> = case["sel"]["alphabet"].as_array().map(|a| a.iter().filter_map(|x| x.as_u64().map(|v| v as usize)).collect()).unwrap_or_default();
+            if let Some(d) = case["sel"]["int_param"].as_array() {
+                let d: Vec<u64> = d.iter().filter_map(|x| x.as_u64()).collect();
+                run_case(0, &int_param_case(&d), 1, &mut acc);
+                ctx.finish_replay(acc);
+            }
             if let Some(fmt) = case["sel"]["dump_format"].as_u64() {
                 dump_case(0, &alphabet, &digits, fmt as usize, &mut acc);
                 ctx.finish_replay(acc);
@@ -902,6 +937,30 @@ fn main() {
             }
         });
     }
+    // F8: every integer parameter at values on both sides of every range in which it has an effect
+    {
+        let n = (INT_PARAMS.len() * INT_VALUES.len() * 3) as u64;
+        ctx.family("int-parameter-values", &format!("{} integer parameters ({}) x {} values ({:?}) x 3 forms (plain, local inside an open group, \\global inside an open group); checkpoint after the assignment; three formats; the observer reads every parameter with \\the", INT_PARAMS.len(), INT_PARAMS.join(" "), INT_VALUES.len(), INT_VALUES), n, |idx, acc| {
+            let d = vcore::digits(idx, &[INT_PARAMS.len() as u64, INT_VALUES.len() as u64, 3]);
+            let v = INT_VALUES[d[1] as usize];
+            // outside the range in which the value has an effect, and not the canonical "disabled" value
+            let out_of_range = match INT_PARAMS[d[0] as usize] {
+                "\\endlinechar" => v < -1 || v > 1114111,
+                "\\globaldefs" | "\\tracingmacros" => v < -1 || v > 2,
+                "\\dumpFormat" | "\\dumpValidate" => !(0..=2).contains(&v),
+                "\\month" => !(1..=12).contains(&v),
+                _ => false,
+            };
+            if out_of_range {
+                acc.count("int_parameter_holds_out_of_range_disabled_value");
+            }
+            let case = int_param_case(&d);
+            run_case(idx, &case, 1, acc);
+            if idx % 97 == 40 {
+                acc.sample(idx, || json!({"family": "int-parameter-values", "P": case.p}));
+            }
+        });
+    }
     // F7: the stdlib's own \\dump primitive
     {
         let alphabet = all.clone();
@@ -913,6 +972,7 @@ fn main() {
     }
 
     for (c, m) in [
+        ("int_parameter_holds_out_of_range_disabled_value", "an integer parameter holds a value outside the range in which it has an effect (e.g. \\endlinechar=300 or -7) at the checkpoint"),
         ("fresh_vm_checkpointed", "a VM that has not read any input is checkpointed"),
         ("source_without_final_line_terminator", "the last line of each pushed source has no line terminator"),
         ("source_with_cr_lf", "lines end in CR LF"),
